@@ -59,7 +59,7 @@ def solve_one(hyps, goal, timeout_ms=10000, use_cvc5=True, seed=0):
         try:
             smt2 = s.to_smt2().replace("(check-sat)", "")
             t1 = time.time()
-            ans, msg = _cvc5_check(smt2, max(5.0, timeout_ms / 1000.0))
+            ans, msg = _cvc5_check(smt2, min(10.0, max(5.0, timeout_ms / 1000.0)))
             dt2 = time.time() - t1
             if ans == "unsat":
                 return {"status": "discharged", "backend": "cvc5", "seconds": dt + dt2, "model": None}
